@@ -79,6 +79,12 @@ func (n *RecNet) SendMessage(ctx context.Context, to peer.ID, m datatransfer.Mes
 		select {
 		case <-hold:
 		case <-ctx.Done():
+			// the send was abandoned while the message was still on its way: it did not reach the peer
+			n.mu.Lock()
+			if n.Sends[idx].Err == nil {
+				n.Sends[idx].Err = ctx.Err()
+			}
+			n.mu.Unlock()
 			return ctx.Err()
 		}
 	}
